@@ -8,6 +8,7 @@ import (
 	"github.com/cube2222/octosql/aggregates"
 	"github.com/cube2222/octosql/execution"
 	"github.com/cube2222/octosql/execution/nodes"
+	"github.com/cube2222/octosql/functions"
 	"github.com/cube2222/octosql/octosql"
 	"github.com/cube2222/octosql/outputs/stream"
 	"github.com/cube2222/octosql/zzverif"
@@ -162,4 +163,132 @@ func VerifC06() {
 	zzverif.Assert(zzverif.Implies(bad.failed, err != nil), "source-error-is-returned")
 	// the converse sanity check of the harness itself: a source that never failed yields no error
 	zzverif.Assert(zzverif.Implies(zzverif.And(bad.runs > 0, !bad.failed), err == nil), "no-spurious-error")
+}
+
+// Expression-failure placements of VerifC06Expr (param EKIND).
+const (
+	exFilterPredicate = iota
+	exMapExpr
+	exOrderByKey
+	exOrderByKeyLimit
+	exSimpleGroupByKey
+	exSimpleGroupByAggregate
+	exCustomGroupByKey
+	exCustomGroupByAggregate
+	exStreamJoinLeftKey
+	exStreamJoinRightKey
+	exOuterJoinLeftKey
+	exOuterJoinRightKey
+	exLookupJoinJoinedFilter
+	exLimitExpr
+	exQuerySingleOverRetraction
+	exQueryMultiOverRetraction
+	exKinds
+)
+
+// VerifC06Expr: an expression that fails on some rows (FAIL=0: the real TypeAssertion to Int, fails
+// exactly on the rows whose column 0 is NULL, i.e. at a symbolic row index; FAIL=1: the real
+// panic() function, fails on the first row it sees) placed in every expression slot of every
+// operator; plus the query expressions over a source that emits a retraction (which they reject
+// themselves). Whenever a failing row is evaluated, Run / Evaluate must return a non-nil error;
+// otherwise it must return nil.
+func VerifC06Expr() {
+	n := zzverif.Param("N")
+	kind := zzverif.Param("EKIND")
+	rows := recs(vx.NDTable("t", n, 2))
+	col0 := execution.Expression(execution.NewVariable(0, 0))
+	var failing execution.Expression
+	anyFails := false
+	if zzverif.Param("FAIL") == 0 {
+		failing = execution.NewTypeAssertion([]octosql.TypeID{octosql.TypeIDInt}, col0, "Int")
+		for _, r := range rows {
+			anyFails = zzverif.Or(anyFails, r.Values[0].TypeID != octosql.TypeIDInt)
+		}
+	} else {
+		failing = execution.NewFunctionCall(functions.FunctionMap()["panic"].Descriptors[0].Function, []execution.Expression{col0}, nil)
+		anyFails = len(rows) > 0
+	}
+	src := vx.NewScriptSource(vx.RecordsToMsgs(rows))
+	other := vx.NewScriptSource(vx.RecordsToMsgs(recs([][]octosql.Value{{octosql.NewInt(1), octosql.NewInt(2)}})))
+	key := []execution.Expression{col0}
+	fkey := []execution.Expression{failing}
+	count := []func() nodes.Aggregate{aggregates.NewCountPrototype()}
+
+	var node execution.Node
+	var expr execution.Expression
+	switch kind {
+	case exFilterPredicate:
+		isNotNull := func(v []octosql.Value) (octosql.Value, error) { return octosql.NewBoolean(true), nil }
+		node = nodes.NewFilter(src, execution.NewFunctionCall(isNotNull, fkey, nil))
+	case exMapExpr:
+		node = nodes.NewMap(src, []execution.Expression{col0, failing})
+	case exOrderByKey:
+		node = nodes.NewOrderSensitiveTransform(src, fkey, []int{1}, nil, false)
+	case exOrderByKeyLimit:
+		var lim execution.Expression = execution.NewConstant(octosql.NewInt(10))
+		node = nodes.NewOrderSensitiveTransform(src, fkey, []int{1}, &lim, true)
+	case exSimpleGroupByKey:
+		node = nodes.NewSimpleGroupBy(count, key, fkey, src)
+	case exSimpleGroupByAggregate:
+		node = nodes.NewSimpleGroupBy(count, fkey, key, src)
+	case exCustomGroupByKey:
+		node = nodes.NewCustomTriggerGroupBy(count, key, fkey, -1, src, execution.NewCountingTriggerPrototype(1))
+	case exCustomGroupByAggregate:
+		node = nodes.NewCustomTriggerGroupBy(count, fkey, key, -1, src, execution.NewCountingTriggerPrototype(1))
+	case exStreamJoinLeftKey:
+		node = nodes.NewStreamJoin(src, other, fkey, key)
+	case exStreamJoinRightKey:
+		node = nodes.NewStreamJoin(other, src, key, fkey)
+	case exOuterJoinLeftKey:
+		node = nodes.NewOuterJoin(src, other, 2, 2, fkey, key, true, true)
+	case exOuterJoinRightKey:
+		node = nodes.NewOuterJoin(other, src, 2, 2, key, fkey, true, true)
+	case exLookupJoinJoinedFilter:
+		// the joined branch is evaluated once per source record; its predicate fails
+		isNotNull := func(v []octosql.Value) (octosql.Value, error) { return octosql.NewBoolean(true), nil }
+		node = nodes.NewLookupJoin(other, nodes.NewFilter(src, execution.NewFunctionCall(isNotNull, fkey, nil)))
+	case exLimitExpr:
+		// LIMIT <failing expression over the outer record>: evaluated once, before the source runs
+		outer := vx.ExecCtx()
+		outer.VariableContext = &execution.VariableContext{Values: []octosql.Value{vx.NDCell("outer")}}
+		anyFails = outer.VariableContext.Values[0].TypeID != octosql.TypeIDInt
+		if zzverif.Param("FAIL") == 1 {
+			anyFails = true
+		}
+		sink := &vx.Sink{}
+		err := nodes.NewLimit(src, failing).Run(outer, sink.Produce, sink.Meta)
+		zzverif.Reach("ran")
+		zzverif.Assert(zzverif.Implies(anyFails, err != nil), "expression-error-is-returned")
+		return
+	case exQuerySingleOverRetraction, exQueryMultiOverRetraction:
+		// the query expressions reject retractions themselves ("can't handle retractions")
+		for i := range rows {
+			rows[i].Retraction = zzverif.Bool("retr")
+		}
+		anyFails = false
+		for _, r := range rows {
+			anyFails = zzverif.Or(anyFails, r.Retraction)
+		}
+		src = vx.NewScriptSource(vx.RecordsToMsgs(rows))
+		if kind == exQuerySingleOverRetraction {
+			expr = execution.NewSingleColumnQueryExpression(src)
+		} else {
+			expr = execution.NewMultiColumnQueryExpression(src)
+		}
+	default:
+		panic("bad EKIND")
+	}
+	var err error
+	if expr != nil {
+		_, err = expr.Evaluate(vx.ExecCtx())
+	} else {
+		sink := &vx.Sink{}
+		err = vx.RunNode(node, sink)
+	}
+	zzverif.Reach("ran")
+	zzverif.Known("C06-orderby-swallows-source-error", zzverif.Or(kind == exOrderByKey, kind == exOrderByKeyLimit))
+	zzverif.Known("C06-single-column-query-swallows-source-error", kind == exQuerySingleOverRetraction)
+	zzverif.Known("C06-multi-column-query-swallows-source-error", kind == exQueryMultiOverRetraction)
+	zzverif.Assert(zzverif.Implies(anyFails, err != nil), "expression-error-is-returned")
+	zzverif.Assert(zzverif.Implies(zzverif.Not(anyFails), err == nil), "no-spurious-error")
 }
